@@ -552,6 +552,10 @@ def check_raw(case):
         base = prg(b"estab", 64)
         data = apply_edits(base, case["edits"]) if case.get("base", True) \
             else bytes.fromhex(case["hex"])
+        if case.get("ign"):
+            # (the integration mix-ins run servers this way)
+            p.s.ignoreAbruptClose = True
+            labels.append("ignoreAbruptClose")
         before = len(p.link.wire(side))
         p.link.inject(side, data)
         p.link.inp[side].eof = True
@@ -607,6 +611,7 @@ def fuzz_case(data):
     c = {"raw": t, "base": False, "hex": data[1:].hex()}
     if t == "established":
         c["v12"] = bool((data[0] // 3) % 2)
+        c["ign"] = bool((data[0] // 6) % 2)
     return c
 
 
@@ -699,6 +704,7 @@ def cases(draw, tier):
             c["hex"] = draw(st.binary(max_size=200)).hex()
         if target == "established":
             c["v12"] = draw(st.booleans())
+            c["ign"] = draw(st.booleans())
         return c
     fl = draw(st.sampled_from([f for f in FL_NAMES if f != "any"]))
     return {"fl": fl, "side": draw(st.sampled_from(["c", "s"])),
@@ -758,6 +764,14 @@ def explicit(tier, seed):
     """Every message of every flavour x a fixed mutation set."""
     for c in REGRESSIONS:
         yield dict(c)
+    # established connection, transport ends: at once, inside a header,
+    # inside a body, after garbage - with and without ignoreAbruptClose
+    for v12 in (False, True):
+        for ign in (False, True):
+            for hx in ("", "17", "1703", "1703030010", "170303001000",
+                       "1703030010" + "ab" * 16, "ff" * 7):
+                yield {"raw": "established", "base": False, "hex": hx,
+                       "v12": v12, "ign": ign}
     fixed = [["empty"], ["zero"], ["trunc", 0], ["extend", 0],
              ["hugelen", 7], ["flip", 0, 0xff], ["setlen", 0, 2, "max"],
              ["setlen", 0, 1, "zero"], ["vec", 0, "empty", 0],
